@@ -414,6 +414,22 @@ pub fn c14_case(ms: &[Member], l: &mut Local) {
         l.violation("compound-write-differs-from-announced", show, || format!("announced {}, write_into = {:?}", n, w));
         return;
     }
+    // the public unchecked writer with room to spare: a compound has no length field of its own, so the spare bytes
+    // change nothing - the same n bytes, nothing beyond them
+    {
+        let mut big = vec![0xA5u8; n + 12];
+        l.transitions += 1;
+        let m = cb.write_into_unchecked(&mut big);
+        let mut head = big[..n].to_vec();
+        let mut exact = buf.clone();
+        canon_fir(&mut head);
+        canon_fir(&mut exact);
+        if m != n || head != exact || big[n..].iter().any(|&x| x != 0xA5) {
+            let first = head.iter().zip(exact.iter()).position(|(a, b)| a != b);
+            l.violation("compound-unchecked-write-differs-with-a-larger-buffer", show, || format!("write_into_unchecked into {} bytes returns {} (announced {}), first differing byte {:?}, spare bytes touched: {}", n + 12, m, n, first, big[n..].iter().any(|&x| x != 0xA5)));
+            return;
+        }
+    }
     l.nontrivial(fp_bytes(&buf));
     // FirBuilder's HashMap order is the one uncontrolled choice in the subject and differs between
     // the instance inside the compound and the instance built alone: canonicalise it away
